@@ -490,3 +490,378 @@ Section RealAnalysis.
     Qed.
   End Runave.
 End RealAnalysis.
+
+(* =================================================================================================
+   D. time-correlation function over R
+   ================================================================================================= *)
+Lemma upd_nth_map_seq {A} (f f' : nat -> A) (p : nat) : forall n k0,
+  (forall c, c <> p -> f' c = f c) -> (k0 <= p < k0 + n)%nat ->
+  upd_nth (p - k0) (map f (seq k0 n)) (f' p) = map f' (seq k0 n).
+Proof.
+  induction n as [|n IH]; intros k0 Hf Hp; [lia|].
+  cbn [seq map]. destruct (Nat.eq_dec p k0) as [->|Hne].
+  - rewrite Nat.sub_diag. cbn [upd_nth]. f_equal. apply map_ext_in. intros c Hc. apply in_seq in Hc. symmetry. apply Hf. lia.
+  - replace (p - k0)%nat with (S (p - S k0)) by lia. cbn [upd_nth]. rewrite (Hf k0) by lia. f_equal. apply IH; [exact Hf|lia].
+Qed.
+
+Lemma nth_map_seq {A} (f : nat -> A) (d : A) : forall n k0 c, (c < n)%nat -> nth c (map f (seq k0 n)) d = f (k0 + c)%nat.
+Proof.
+  induction n as [|n IH]; intros k0 c Hc; [lia|]. cbn [seq map]. destruct c as [|c]; cbn [nth].
+  - f_equal. lia.
+  - rewrite IH by lia. f_equal. lia.
+Qed.
+
+Lemma repeat_map_seq {A} (a : A) : forall n k0, repeat a n = map (fun _ => a) (seq k0 n).
+Proof. induction n as [|n IH]; intros k0; [reflexivity|]. cbn [repeat seq map]. f_equal. apply IH. Qed.
+
+Lemma nth_skipn' {A} (d : A) : forall k (l : list A) j, nth j (skipn k l) d = nth (k + j) l d.
+Proof.
+  induction k as [|k IH]; intros l j; [reflexivity|]. destruct l as [|a l]; cbn [skipn Nat.add nth].
+  - destruct j; reflexivity.
+  - apply IH.
+Qed.
+
+Lemma nth_firstn' {A} (d : A) : forall k (l : list A) i, (i < k)%nat -> nth i (firstn k l) d = nth i l d.
+Proof.
+  induction k as [|k IH]; intros l i Hi; [lia|]. destruct l as [|a l]; [reflexivity|].
+  cbn [firstn]. destruct i as [|i]; [reflexivity|]. cbn [nth]. apply IH. lia.
+Qed.
+
+Section AcfR.
+  Local Open Scope R_scope.
+  Context {V : Type} (pair : V -> V -> R) (dflt : V).
+  Variables (xi xj : list V) (len s off : nat).
+  Hypothesis Hs : (1 <= s)%nat.
+
+  Notation M := (len + off)%nat.
+  Notation si := (vat dflt xi).
+  Notation sj := (vat dflt xj).
+
+  (* the values pushed on history list c up to step t, newest first: steps u <= t with (u-1) mod s = c *)
+  Fixpoint strided (c t : nat) : list V :=
+    match t with
+    | 0%nat => []
+    | S u => if (u mod s =? c)%nat then si (S u) :: strided c u else strided c u
+    end.
+
+  Lemma strided_general : forall t c, (c < s)%nat ->
+    let n := length (strided c t) in
+    (t <= c + n * s)%nat /\ ((1 <= n)%nat -> (c + (n - 1) * s < t)%nat) /\
+    forall i, (i < n)%nat -> nth i (strided c t) dflt = si (S (c + (n - 1 - i) * s)).
+  Proof.
+    induction t as [|t IH]; intros c Hc; cbn zeta.
+    - cbn [strided length]. repeat split; try lia.
+    - specialize (IH c Hc). cbn zeta in IH. destruct IH as [B1 [B2 Bn]].
+      cbn [strided]. destruct (t mod s =? c)%nat eqn:E.
+      + apply Nat.eqb_eq in E. cbn [length]. set (n := length (strided c t)) in *.
+        assert (Ht : t = (c + n * s)%nat).
+        { pose proof (Nat.div_mod_eq t s) as Hd. rewrite E in Hd.
+          destruct (Nat.eq_dec n 0) as [Hn|Hn]; [lia|]. specialize (B2 ltac:(lia)).
+          assert (t / s = n)%nat by nia. nia. }
+        repeat split; try nia.
+        intros i Hi. destruct i as [|i]; cbn [nth].
+        * f_equal. replace (S n - 1 - 0)%nat with n by lia. lia.
+        * rewrite Bn by lia. f_equal. f_equal. f_equal. f_equal. lia.
+      + apply Nat.eqb_neq in E. set (n := length (strided c t)) in *.
+        assert (Hne : t <> (c + n * s)%nat).
+        { intros Heq. apply E. rewrite Heq, Nat.mod_add by lia. apply Nat.mod_small. exact Hc. }
+        repeat split; try lia. exact Bn.
+  Qed.
+
+  (* the list at the pointer when step t+1 is processed *)
+  Lemma strided_ptr : forall t,
+    let l := strided (t mod s) t in
+    length l = (t / s)%nat /\ forall i, (i < t / s)%nat -> nth i l dflt = si (S t - (i + 1) * s)%nat.
+  Proof.
+    intros t. cbn zeta.
+    pose proof (Nat.mod_upper_bound t s ltac:(lia)) as Hc.
+    destruct (strided_general t (t mod s) Hc) as [B1 [B2 Bn]]. cbn zeta in *.
+    set (n := length (strided (t mod s) t)) in *.
+    pose proof (Nat.div_mod_eq t s) as Hd.
+    assert (Hn : n = (t / s)%nat).
+    { destruct (Nat.eq_dec n 0) as [Hn|Hn].
+      - rewrite Hn in *. assert (t / s = 0)%nat by nia. lia.
+      - specialize (B2 ltac:(lia)). nia. }
+    split; [exact Hn|]. intros i Hi. rewrite Bn by lia. f_equal. rewrite Hn. nia.
+  Qed.
+
+  (* accumulators: lag of row k, term added at step u, sums after step t *)
+  Definition lagof (k : nat) : nat := match k with 0%nat => 0%nat | S _ => ((off + k) * s)%nat end.
+  Definition term (k u : nat) : R := pair (si (u - lagof k)%nat) (sj u).
+  Fixpoint A (k t : nat) : R :=
+    match t with
+    | 0%nat => 0
+    | S u => if (M * s <=? u)%nat then A k u + term k (S u) else A k u
+    end.
+
+  Lemma A_closed : forall k t, A k t = corr_sum Rops pair dflt xi xj (lagof k) (M * s + 1) (t - M * s).
+  Proof.
+    intros k. induction t as [|u IH].
+    - reflexivity.
+    - cbn [A]. destruct (M * s <=? u)%nat eqn:E.
+      + apply Nat.leb_le in E. replace (S u - M * s)%nat with (S (u - M * s)) by lia.
+        unfold corr_sum in *. cbn [sumf Rops nadd]. rewrite IH. unfold term. f_equal.
+        replace (M * s + 1 + (u - M * s))%nat with (S u) by lia. reflexivity.
+      + apply Nat.leb_gt in E. replace (S u - M * s)%nat with 0%nat by lia.
+        rewrite IH. replace (u - M * s)%nat with 0%nat by lia. reflexivity.
+  Qed.
+
+  Lemma acc_pairs_seq : forall n k0 (f : nat -> R) (g : nat -> V) now,
+    acc_pairs Rops pair now (map g (seq k0 n)) (map f (seq k0 n)) = map (fun k => f k + pair (g k) now) (seq k0 n).
+  Proof.
+    induction n as [|n IH]; intros k0 f g now; [reflexivity|]. cbn [seq map acc_pairs Rops nadd]. f_equal. apply IH.
+  Qed.
+
+  Definition inv (t : nat) (st : astate) : Prop :=
+    a_hist st = map (fun c => firstn M (strided c t)) (seq 0 s) /\
+    a_ptr st = (t mod s)%nat /\
+    a_acf st = map (fun k => A k t) (seq 0 (S len)) /\
+    a_n st = (t - M * s)%nat.
+
+  Lemma inv_step : forall t st, inv t st ->
+    inv (S t) (acf_step Rops pair len s off st (Some t) (S t) (si (S t)) (sj (S t))).
+  Proof.
+    intros t st [Hh [Hp [Ha Hn]]].
+    unfold acf_step. rewrite Hh. destruct s as [|s'] eqn:Es; [lia|]. rewrite <- Es in *.
+    assert (Hseq : seq 0 s = 0%nat :: seq 1 s') by (rewrite Es; reflexivity).
+    rewrite Hseq at 1. cbn [map]. rewrite <- Hh.
+    cbn [after_prev]. replace (t <? S t)%nat with true by (symmetry; apply Nat.ltb_lt; lia).
+    pose proof (Nat.mod_upper_bound t s ltac:(lia)) as Hc.
+    destruct (strided_ptr t) as [Sl Sn]. cbn zeta in Sl, Sn.
+    assert (Hl : nth (a_ptr st) (a_hist st) [] = firstn M (strided (t mod s) t)).
+    { rewrite Hp, Hh, nth_map_seq by exact Hc. reflexivity. }
+    rewrite Hl.
+    assert (Hlen : length (firstn M (strided (t mod s) t)) = Nat.min M (t / s)) by (rewrite firstn_length, Sl; reflexivity).
+    assert (Hfull : (M <=? length (firstn M (strided (t mod s) t)))%nat = (M * s <=? t)%nat).
+    { rewrite Hlen. pose proof (Nat.div_mod_eq t s) as Hd.
+      destruct (M * s <=? t)%nat eqn:E.
+      - apply Nat.leb_le in E. apply Nat.leb_le. assert (M <= t / s)%nat by nia. lia.
+      - apply Nat.leb_gt in E. apply Nat.leb_gt. assert (t / s < M)%nat by nia. lia. }
+    unfold acf_accumulate. rewrite Hfull.
+    (* the new history and pointer do not depend on the accumulation *)
+    assert (Hhist' : upd_nth (a_ptr st) (a_hist st) (firstn M (si (S t) :: firstn M (strided (t mod s) t))) =
+                     map (fun c => firstn M (strided c (S t))) (seq 0 s)).
+    { rewrite Hp, Hh, firstn_cons_firstn.
+      pose proof (upd_nth_map_seq (fun c => firstn M (strided c t)) (fun c => firstn M (strided c (S t))) (t mod s) s 0) as HU.
+      rewrite Nat.sub_0_r in HU. cbn beta in HU.
+      assert (Hsame : firstn M (strided (t mod s) (S t)) = firstn M (si (S t) :: strided (t mod s) t)).
+      { cbn [strided]. rewrite Nat.eqb_refl. reflexivity. }
+      rewrite Hsame in HU. apply HU; [|lia].
+      intros c Hne. cbn [strided]. destruct (t mod s =? c)%nat eqn:E; [apply Nat.eqb_eq in E; congruence|reflexivity]. }
+    assert (Hptr' : (if (S (a_ptr st) <? length (a_hist st))%nat then S (a_ptr st) else 0%nat) = (S t mod s)%nat).
+    { rewrite Hp, Hh, map_length, seq_length. symmetry. apply mod_succ. exact Hs. }
+    destruct (M * s <=? t)%nat eqn:E.
+    - apply Nat.leb_le in E.
+      rewrite Ha. cbn [seq map].
+      unfold inv. cbn [a_hist a_ptr a_acf a_n]. rewrite Hhist', Hptr'. repeat split; try lia.
+      cbn [seq map A]. replace (M * s <=? t)%nat with true by (symmetry; apply Nat.leb_le; exact E).
+      f_equal.
+      + (* rows 1..len *)
+        assert (Hsk : skipn off (firstn M (strided (t mod s) t)) = map (fun k => si (S t - lagof k)%nat) (seq 1 len)).
+        { assert (HM : (M <= t / s)%nat).
+          { pose proof (Nat.div_mod_eq t s). nia. }
+          apply (nth_ext _ _ dflt dflt).
+          - rewrite skipn_length, firstn_length, Sl, map_length, seq_length. lia.
+          - intros j Hj. rewrite skipn_length, firstn_length, Sl in Hj.
+            rewrite nth_skipn'.
+            assert (Hj2 : (off + j < M)%nat) by lia.
+            rewrite nth_map_seq by lia.
+            rewrite nth_firstn' by exact Hj2.
+            rewrite Sn by lia. f_equal. unfold lagof. replace (1 + j)%nat with (S j) by lia. nia. }
+        rewrite Hsk, acc_pairs_seq. apply map_ext. intros k. reflexivity.
+    - apply Nat.leb_gt in E.
+      unfold inv. cbn [a_hist a_ptr a_acf a_n]. rewrite Hhist', Hptr'. repeat split; try lia.
+      rewrite Ha. apply map_ext. intros k. cbn [A]. replace (M * s <=? t)%nat with false by (symmetry; apply Nat.leb_gt; exact E). reflexivity.
+  Qed.
+
+  Lemma inv_init : forall x y, inv 0 (acf_step Rops pair len s off (a0 (T:=R) (V:=V)) None 0 x y).
+  Proof.
+    intros x y. unfold acf_step, a0, inv. cbn [a_hist a_ptr a_acf a_n length].
+    repeat split.
+    - rewrite (repeat_map_seq [] s 0). apply map_ext. intros c. cbn [strided]. destruct M; reflexivity.
+    - rewrite Nat.mod_0_l by lia. reflexivity.
+    - replace (0 <? len + 1)%nat with true by (symmetry; apply Nat.ltb_lt; lia).
+      cbn [app]. replace (len + 1 - 0)%nat with (S len) by lia.
+      rewrite (repeat_map_seq (n0 Rops) (S len) 0). reflexivity.
+  Qed.
+
+  (* the history of a run: relative steps 0,1,..,n-1 with the two variables' quantities *)
+  Fixpoint pair_hist (t : nat) (n : nat) : list (nat * (V * V)) :=
+    match n with 0%nat => [] | S m => (t, (si t, sj t)) :: pair_hist (S t) m end.
+
+  Lemma acf_run_from : forall n t st, inv t st ->
+    inv (t + n) (acf_run Rops pair len s off st (Some t) (pair_hist (S t) n)).
+  Proof.
+    induction n as [|n IH]; intros t st Hinv; cbn [pair_hist acf_run].
+    - replace (t + 0)%nat with t by lia. exact Hinv.
+    - replace (t + S n)%nat with (S t + n)%nat by lia. apply IH. apply inv_step. exact Hinv.
+  Qed.
+
+  Lemma acf_run_inv : forall n, inv n (acf_run Rops pair len s off (a0 (T:=R) (V:=V)) None (pair_hist 0 (S n))).
+  Proof.
+    intros n. cbn [pair_hist acf_run]. apply (acf_run_from n 0). apply inv_init.
+  Qed.
+
+  (* what write_acf prints *)
+  Definition row_value (normalize : bool) (N : nat) (k : nat) (t : nat) : R :=
+    if normalize then A k t / A 0 t else A k t / INR N.
+
+  Lemma acf_rows_seq : forall normalize norm nf n k0 (f : nat -> R),
+    acf_rows Rops normalize s norm nf (off + k0) (map f (seq k0 n)) =
+    map (fun k => ((s * (off + k))%nat, if normalize then f k / (norm * nf) else f k / nf)) (seq k0 n).
+  Proof.
+    induction n as [|n IH]; intros k0 f; [reflexivity|]. cbn [seq map acf_rows Rops ndiv nmul]. f_equal.
+    replace (S (off + k0)) with (off + S k0)%nat by lia. apply IH.
+  Qed.
+
+  Lemma acf_written : forall normalize n,
+    let st := acf_run Rops pair len s off (a0 (T:=R) (V:=V)) None (pair_hist 0 (S n)) in
+    let N := (n - M * s)%nat in
+    a_n st = N /\
+    acf_write Rops normalize s off st =
+      match N with
+      | 0%nat => []
+      | S _ => (0%nat, row_value normalize N 0 n) ::
+               map (fun k => ((s * (off + k))%nat, row_value normalize N k n)) (seq 1 len)
+      end.
+  Proof.
+    intros normalize n st N. destruct (acf_run_inv n) as [Hh [Hp [Ha Hn]]]. fold st in Hh, Hp, Ha, Hn.
+    split; [exact Hn|]. unfold acf_write. rewrite Hn. fold N. destruct N as [|N'] eqn:EN; [reflexivity|].
+    rewrite Ha. cbn [seq map hd].
+    assert (Hnf : ofnat Rops (S N') = INR (S N')).
+    { unfold ofnat. cbn [Rops nofZ]. rewrite <- INR_IZR_INZ. reflexivity. }
+    assert (Hnz : INR (S N') <> 0) by (apply not_0_INR; lia).
+    rewrite Hnf. cbn [Rops ndiv nmul n0].
+    f_equal.
+    - f_equal. unfold row_value. destruct normalize; [|reflexivity].
+      f_equal. field. exact Hnz.
+    - replace (S off) with (off + 1)%nat by lia. rewrite acf_rows_seq. apply map_ext. intros k.
+      f_equal. unfold row_value. destruct normalize; [|reflexivity].
+      f_equal. field. exact Hnz.
+  Qed.
+End AcfR.
+
+(* =================================================================================================
+   statements in the form used by Properties_C19.v
+   ================================================================================================= *)
+Section Statements.
+  Local Open Scope R_scope.
+
+  Lemma win_mean_R : forall xs L s t,
+    win_mean Rops xs L s t = sumf Rops (fun j => nth (t - j * s) xs 0) L / INR L.
+  Proof. intros. unfold win_mean, xat, ofnat. cbn [Rops ndiv nofZ n0]. rewrite <- INR_IZR_INZ. reflexivity. Qed.
+
+  Lemma win_var_R : forall xs L s t,
+    win_var Rops xs L s t =
+    sumf Rops (fun j => (nth (t - j * s) xs 0 - win_mean Rops xs L s t) * (nth (t - j * s) xs 0 - win_mean Rops xs L s t)) L
+      / INR (L - 1).
+  Proof. intros. unfold win_var, xat, ofnat, nsq. cbn [Rops ndiv nofZ n0 nsub nmul]. rewrite <- INR_IZR_INZ. reflexivity. Qed.
+
+  Lemma emits_iff : forall L s t, (1 <= s)%nat -> emits L s t = true <-> (t mod s = 0 /\ L * s <= t)%nat.
+  Proof.
+    intros L s t Hs. unfold emits. rewrite andb_true_iff, Nat.eqb_eq, Nat.leb_le.
+    pose proof (Nat.div_mod_eq t s). pose proof (Nat.mod_upper_bound t s ltac:(lia)).
+    split; intros [H1 H2]; split; try exact H1; nia.
+  Qed.
+
+  (* every line of the running-average file, and nothing else *)
+  Lemma runave_line_iff : forall xs L s it0, (1 <= L)%nat -> (1 <= s)%nat ->
+    forall step av var sd,
+      In (step, av, var, sd) (runave_run Rops L s it0 (r0 (T:=R)) None (hist xs)) <->
+      exists t, (1 <= t < length xs /\ t mod s = 0 /\ L * s <= t)%nat /\
+                step = (it0 + t)%nat /\
+                av = sumf Rops (fun j => nth (t - j * s) xs 0) L / INR L /\
+                var = sumf Rops (fun j => (nth (t - j * s) xs 0 - av) * (nth (t - j * s) xs 0 - av)) L / INR (L - 1) /\
+                sd = sqrt var.
+  Proof.
+    intros xs L s it0 HL Hs step av var sd. rewrite (runave_lines xs L s it0 HL Hs), in_flat_map. split.
+    - intros [t [Hin Ht]]. apply in_seq in Hin. destruct (emits L s t) eqn:E; [|contradiction].
+      destruct Ht as [Ht|[]]. unfold rline_spec in Ht. inversion Ht; subst.
+      apply emits_iff in E; [|exact Hs]. exists t. repeat split; try lia.
+      + apply win_mean_R.
+      + apply win_var_R.
+    - intros [t [[Hr [Hm Hl]] [-> [Hav [Hvar ->]]]]]. exists t. split; [apply in_seq; lia|].
+      replace (emits L s t) with true by (symmetry; apply emits_iff; [exact Hs|split; assumption]).
+      left. unfold rline_spec. rewrite <- win_mean_R in Hav. subst av. rewrite <- win_var_R in Hvar. subst var. reflexivity.
+  Qed.
+
+  Lemma runave_steps_nodup : forall xs L s it0, (1 <= L)%nat -> (1 <= s)%nat ->
+    NoDup (map (fun l : nat * R * R * R => fst (fst (fst l))) (runave_run Rops L s it0 (r0 (T:=R)) None (hist xs))).
+  Proof.
+    intros xs L s it0 HL Hs. rewrite (runave_lines xs L s it0 HL Hs).
+    generalize (seq_NoDup (length xs - 1) 1). generalize (seq 1 (length xs - 1)) as l.
+    induction l as [|t l IH]; intros Hnd; cbn [flat_map map]; [constructor|].
+    inversion Hnd as [|? ? Hnot Hnd']; subst. specialize (IH Hnd').
+    destruct (emits L s t); cbn [app map]; [|exact IH].
+    constructor; [|exact IH]. cbn [rline_spec fst]. intros Hin. apply in_map_iff in Hin.
+    destruct Hin as [[[[st av] var] sd] [Heq Hin]]. cbn [fst] in Heq. apply in_flat_map in Hin.
+    destruct Hin as [t' [Hin' Hl]]. destruct (emits L s t'); [|contradiction]. destruct Hl as [Hl|[]].
+    unfold rline_spec in Hl. inversion Hl; subst. assert (t' = t) by lia. subst. contradiction.
+  Qed.
+
+  (* a step computed twice leaves the analyses untouched *)
+  Lemma runave_repeated_step : forall L s it0 st t x, r_init st = true ->
+    runave_step Rops L s it0 st (Some t) t x = (st, None).
+  Proof.
+    intros L s it0 st t x Hi. unfold runave_step. rewrite Hi. cbn [negb after_prev]. rewrite Nat.ltb_irrefl, andb_false_r. reflexivity.
+  Qed.
+
+  Lemma acf_repeated_step : forall (V : Type) (pair : V -> V -> R) len s off st t x y, a_hist st <> [] ->
+    acf_step Rops pair len s off st (Some t) t x y = st.
+  Proof.
+    intros V pair len s off st t x y Hh. unfold acf_step. destruct (a_hist st) as [|l r]; [congruence|].
+    cbn [after_prev]. rewrite Nat.ltb_irrefl. reflexivity.
+  Qed.
+
+  (* correlation function file for the three correlation types *)
+  Lemma acf_model_written : forall (ty : acf_type) (normalize : bool) (len s off : nat) (xi xj : list (list R)) (n : nat), (1 <= s)%nat ->
+    let M := (len + off)%nat in
+    let N := (n - M * s)%nat in
+    let S_ k := corr_sum Rops (acf_pair Rops ty) [] xi xj (lagof s off k) (M * s + 1) N in
+    let row k := if normalize then S_ k / S_ 0%nat else S_ k / INR N in
+    acf_model Rops ty normalize len s off (pair_hist [] xi xj 0 (S n)) =
+      (match N with
+       | 0%nat => []
+       | S _ => (0%nat, row 0%nat) :: map (fun k => ((s * (off + k))%nat, row k)) (seq 1 len)
+       end, N).
+  Proof.
+    intros ty normalize len s off xi xj n Hs M N S_ row. unfold acf_model.
+    destruct (acf_written (acf_pair Rops ty) [] xi xj len s off Hs normalize n) as [Hn Hw]. cbn zeta in Hn, Hw.
+    rewrite Hw, Hn. fold M. fold N. f_equal.
+    destruct N as [|N'] eqn:EN; [reflexivity|].
+    unfold row_value. f_equal.
+    - f_equal. unfold row, S_. rewrite !A_closed by exact Hs. fold M. rewrite <- EN. reflexivity.
+    - apply map_ext. intros k. f_equal. unfold row, S_. rewrite !A_closed by exact Hs. fold M. rewrite <- EN. reflexivity.
+  Qed.
+End Statements.
+
+(* ---- computable sanity instances (exact rationals; the square-root slot is the identity) ------- *)
+Definition Qltb (a b : Q) : bool := match Qcompare a b with Lt => true | _ => false end.
+Definition Qleb (a b : Q) : bool := match Qcompare a b with Gt => false | _ => true end.
+Definition Qops : NumOps Q :=
+  mkNumOps Q 0%Q 1%Q (fun a b => Qred (a + b)) (fun a b => Qred (a - b)) (fun a b => Qred (a * b))
+           (fun a b => Qred (a / b)) (fun a => Qred (- a))
+           (fun a => a) (fun a => a) (fun a => a) (fun a => a) (fun a => a) (fun a => a)
+           (fun a _ => a) (fun a _ => a) inject_Z Qfloor Qltb Qleb Qeq_bool.
+
+Section Instances.
+  Local Open Scope Q_scope.
+  (* window 3 over 1,2,4,8,16 (first step 10): lines at steps 13 and 14, means 14/3 and 28/3, sample variances 28/3, 112/3 *)
+  Lemma runave_instance :
+    runave_run Qops 3 1 10 (r0 (T:=Q)) None (hist [1; 2; 4; 8; 16]) =
+      [(13%nat, 14 # 3, 28 # 3, 28 # 3); (14%nat, 28 # 3, 112 # 3, 112 # 3)].
+  Proof. vm_compute. reflexivity. Qed.
+
+  (* x = 1,2,4,8,16,32, coordinate autocorrelation, length 1, stride 1, offset 1, normalised: 4 time origins
+     (steps 3..5 have a full window of 2 stored values... ) rows: lag 0 -> 1, lag 2 -> 1/4 *)
+  Lemma acf_instance :
+    acf_model Qops AcfCoor true 1 1 1 (hist (map (fun v : list Q => (v, v)) [[1]; [2]; [4]; [8]; [16]; [32]])) =
+      ([(0%nat, 1); (2%nat, 1 # 4)], 3%nat).
+  Proof. vm_compute. reflexivity. Qed.
+
+  (* cross-correlation <x_i(t0) x_j(t0 + 1)> of x_i = 1,1,1,.. with x_j = 1,2,4,..: (4+8+16+32)/4 = 15; lag 0: (2+4+8+16)/4 *)
+  Lemma acf_cross_instance :
+    acf_model Qops AcfCoor false 1 1 0 (hist (map (fun v : list Q => ([1], v)) [[1]; [2]; [4]; [8]; [16]; [32]])) =
+      ([(0%nat, 15); (1%nat, 15)], 4%nat).
+  Proof. vm_compute. reflexivity. Qed.
+End Instances.
